@@ -136,27 +136,18 @@ theorem journal_no_panic (C : Curve) (ser : List UInt8) (shape : List Nat) (hlen
     | err => simp only []; intro h; cases h
     | ok l => simp only []; intro h; cases h
 
-/-- `deserializeBestChainState` never panics on records shorter than 4 GiB (the work-sum length and
-offset are `uint32`; see meta "assumptions"). -/
-theorem bestState_no_panic (ser : List UInt8) (hlen : ser.length < 2 ^ 32) :
-    deserializeBestChainState ser ≠ .panic := by
+/-- `deserializeBestChainState` never panics (after the fix that removed the uint32 arithmetic). -/
+theorem bestState_no_panic (ser : List UInt8) : deserializeBestChainState ser ≠ .panic := by
   unfold deserializeBestChainState
   by_cases h48 : ser.length < 48
   · rw [if_pos h48]; intro h; cases h
   rw [if_neg h48, slice_some (by omega) (by omega), slice_some (by omega) (by omega),
     slice_some (by omega) (by omega), slice_some (by omega) (by omega), slice_to_end (by omega)]
   simp only []
-  have hrl : (ser.drop 48).length = ser.length - 48 := List.length_drop
   split
   · intro h; cases h
   · rename_i hw
-    rw [hrl] at hw
-    have hw' : leVal ((ser.drop 44).take (48 - 44)) ≤ ser.length - 48 := by
-      have : (ser.length - 48) % 2 ^ 32 = ser.length - 48 := Nat.mod_eq_of_lt (by omega)
-      omega
-    have hm : (48 + leVal ((ser.drop 44).take (48 - 44))) % 2 ^ 32 = 48 + leVal ((ser.drop 44).take (48 - 44)) :=
-      Nat.mod_eq_of_lt (by omega)
-    rw [hm, slice_some (by omega) (by omega)]
+    rw [slice_some (by omega) (by omega)]
     simp only []; intro h; cases h
 
 theorem blockRow_no_panic (ser : List UInt8) : deserializeBlockRow ser ≠ .panic := by
